@@ -257,6 +257,9 @@ def streams_quick(tier):
             out.append((req, 'rep-%d-v6' % code, ok + socks5.reply(code, 4, bytes(16), 0)))
             out.append((req, 'rep-%d-dom' % code, ok + socks5.reply(code, 3, b'', 0)))
             out.append((req, 'rep-%d-dom4' % code, ok + socks5.reply(code, 3, b'abcd', 0)))
+            # a failure reply whose address-type byte is not 1/3/4 still carries its reply code
+            for at in (0, 9, 255):
+                out.append((req, 'rep-%d-atyp%d' % (code, at), ok + socks5.reply(code, at, bytes(4), 0)))
         out.append((req, 'ver4', ok + socks5.reply(0, 1, bytes(4), 0, ver=4)))
         out.append((req, 'atyp9', ok + socks5.reply(0, 9, bytes(4), 0)))
         for app in ((b'', b'Z', b'HELLO') if req == 'CONNECT' else (b'',)):
